@@ -973,7 +973,9 @@ def P_C09 (v : Variant) (attr : Toks) (item : Item) (view : View) : Bool :=
           g.preds == t.generics.preds && g.wtrail == t.generics.wtrail &&
           -- the macro adds only mock derivations it owns, and every attribute of the trait is kept
           g.attrs.all (fun a => t.attrs.contains a || a.mockKind.isSome) &&
-          t.attrs.all (fun a => g.attrs.contains a) &&
+          -- (as a sequence: in the user's order and as often as written — a doc comment is one attribute per line,
+          --  and two equal lines are two attributes)
+          t.attrs.isSublist g.attrs &&
           zipAll (declMemberOk hasAT o.futureSendValue) t.fns (g.members.filter (fun m => m.sig?.isSome))
       | _, _ => false
   | _ => true
@@ -1418,8 +1420,10 @@ def P_C15 (attr : Toks) (item : Item) (realPanic : Bool) (realDiag : Option (Lis
   !realPanic && realParsed &&
   (match specMisuses attr item with
    | some (m :: ms) =>
+       -- the macro may report several independent mistakes at once: the first diagnostic is the one the
+       -- property speaks about (further ones are further rejections, not a different answer to this misuse)
        (match realDiag with
-        | some [msg] => (m :: ms).contains msg
+        | some (msg :: _) => (m :: ms).contains msg
         | _ => false)
    | _ => true)
 
